@@ -81,7 +81,16 @@ int main(void)
 	rc = cfg_free(root);
 	V_ASSERT(rc == CFG_SUCCESS, "[C07] freeing a context succeeds");
 	V_ASSERT(n_freecb == (vin_ptr_null ? 1 : 2), "[C07] every user-defined pointer value is handed to the release function exactly once");
-	V_ASSERT(freed[n_freecb - 1] == (void *)&cell_b && (vin_ptr_null || freed[0] == (void *)&cell_a), "[C07] the release function receives the stored pointers");
+	{
+		/* each stored pointer exactly once, in whatever order */
+		int na = 0, nb = 0, k;
+
+		for (k = 0; k < n_freecb && k < 4; k++) {
+			na += freed[k] == (void *)&cell_a;
+			nb += freed[k] == (void *)&cell_b;
+		}
+		V_ASSERT(nb == 1 && na == (vin_ptr_null ? 0 : 1), "[C07] the release function receives each stored pointer exactly once");
+	}
 	V_ASSERT(n_destroy == 1, "[C07] freeing the root context tears the scanner down once");
 	/* CBMC: --memory-leak-check proves that nothing allocated above is still allocated here,
 	 * the pointer checks prove that nothing was freed twice or used after its release */
